@@ -342,7 +342,7 @@ def build_objects(ctx, counter):
     analytic = ctx.flavour == "analytic"
 
     # the writers use a potential through energy() and force(): every third pair model hands over sub-classed potentials
-    P_ = ConvertedPotential if (m["fam"] == "pair" and m["tgt"] in ("LAMMPS", "DLPOLY", "GULP") and ctx.idx % 3 == 2) else Potential
+    P_ = ConvertedPotential if (m["fam"] == "pair" and m["tgt"] in ("LAMMPS", "DLPOLY", "GULP", "excel") and ctx.idx % 3 == 2) else Potential
 
     def pots_of(lst, kind):
         return [P_(L(a), L(b), PyFn(probe(pair_fn(a, b, kind)), counter, "%s %d-%d" % (kind, a, b), analytic)) for a, b in lst]
@@ -1239,6 +1239,7 @@ def main(prop, tier, seed):
             funcfl_negative_pair(run)
         if prop == "C02" and not run.machinery_errors:
             dlpoly_dynamic_range(run)
+            dlpoly_large_and_grid_points(run)
         if prop in ("C04", "C05") and not run.machinery_errors:
             calibrate_eeam(run)
         if tier == "thorough" and prop in ("C01", "C03", "C05"):
@@ -1495,6 +1496,62 @@ def dlpoly_dynamic_range(run):
             except Exception as e:
                 run.violation(dict(engine="layout", target="DLPOLY", clause="dynamic-range", route=route),
                               "DLPOLY via %s: [dynamic-range] potential %s: %s: %s" % (route, name, type(e).__name__, e), dict(name=name, route=route))
+
+
+def dlpoly_large_and_grid_points(run):
+    """(a) a value of 1e100 or more cannot be written in a 15-character field at all: such a model has no TABLE, the write is refused
+    and nothing is written; (b) the k-th row is V(k*delpot): when k*delpot is exactly a range start (1000 * 0.0025 = 2.5, in
+    binary floating point too) the row belongs to the range that starts there"""
+    import io
+    from atsim.potentials import Potential
+    from atsim.potentials.pair_tabulation import DLPoly_PairTabulation
+    for route in ("class", "wp", "ini"):
+        run.evaluations += 1
+        run.distinct("dynamic-range:huge:%s" % route)
+        out = io.StringIO()
+        try:
+            if route == "class":
+                DLPoly_PairTabulation([Potential("Aa", "Bq1", lambda r: r ** -38.0)], 10.0, 4004).write(out)
+            elif route == "wp":
+                P.writePotentials("DL_POLY", [Potential("Aa", "Bq1", lambda r: r ** -38.0)], 10.0, 4004, out=out)
+            else:
+                Configuration().read(io.StringIO("[Tabulation]\ntarget : DL_POLY\ncutoff : 10.0\nnr : 4004\n\n[Pair]\nAa-Bq1 : as.exponential 1.0 -38\n")).write(out)
+            raised = None
+        except Exception as e:
+            raised = e
+        text = out.getvalue()
+        if raised is None:
+            widths = sorted(set(len(ln) for ln in text.splitlines()[3:]))
+            run.violation(dict(engine="layout", target="DLPOLY", clause="dynamic-range", route=route, huge=True),
+                          "DLPOLY via %s: [dynamic-range] r^-38 on a grid from 0.0025 (values up to 1e98 and force values of 1e100): a TABLE was written whose records are %s characters long" % (route, widths),
+                          dict(route=route))
+        elif text:
+            run.violation(dict(engine="layout", target="DLPOLY", clause="dynamic-range", route=route, huge=True),
+                          "DLPOLY via %s: [dynamic-range] values beyond the field width refused (%s) but %d characters were written" % (route, type(raised).__name__, len(text)), dict(route=route))
+    for route in ("class", "ini"):
+        for cutoff, nr, k in ((10.0, 4004, 1000), (10.0, 404, 100), (12.0, 1204, 250)):
+            delpot = cutoff / (nr - 4)
+            if k * delpot != 2.5:
+                continue
+            run.evaluations += 1
+            run.distinct("grid-point:%s:%s:%d" % (route, cutoff, nr))
+            out = io.StringIO()
+            try:
+                if route == "class":
+                    fn = lambda r: 5.0 - r if r < 2.5 else 0.0
+                    pot = Potential("Aa", "Bq1", fn)
+                    fn.deriv = lambda r: -1.0 if r < 2.5 else 0.0
+                    DLPoly_PairTabulation([pot], cutoff, nr).write(out)
+                else:
+                    Configuration().read(io.StringIO("[Tabulation]\ntarget : DL_POLY\ncutoff : %r\nnr : %d\n\n[Pair]\nAa-Bq1 : >0 as.polynomial 5 -1 >=2.5 as.zero\n" % (cutoff, nr))).write(out)
+                b = formats.parse_dlpoly_table(out.getvalue())["blocks"][0]
+                e, f = float(b["E"][k - 1]), float(b["F"][k - 1])
+                if e != 0.0 or f != 0.0:
+                    run.violation(dict(engine="layout", target="DLPOLY", clause="grid-point", route=route),
+                                  "DLPOLY via %s: [grid-point] cutoff %s, %d rows: row %d is at %d * %r = 2.5 exactly, where the range '>=2.5 as.zero' starts; it holds energy %s force %s" % (
+                                      route, cutoff, nr, k, k, delpot, b["E"][k - 1], b["F"][k - 1]), dict(route=route, cutoff=cutoff, nr=nr))
+            except Exception as e:
+                run.violation(dict(engine="layout", target="DLPOLY", clause="grid-point", route=route), "DLPOLY via %s: [grid-point] %s: %s" % (route, type(e).__name__, e), dict(route=route))
 
 
 def main(prop, tier, seed):     # noqa: F811
